@@ -67,15 +67,14 @@ Section Spec.
      A full/suffix/keyword pattern with a byte outside the alphabet describes nothing: it is skipped. *)
   Definition pat_matches (k : kind) (pat name : str) : bool :=
     match k with
-    | KFull => pat_ok pat && str_eqb name pat
+    | KFull => str_eqb name pat && pat_ok pat
     | KSuffix =>
-        pat_ok pat &&
         match pat with
         | c :: _ => if c =? ch_dot then ends_with name pat                       (* proper sub-names only *)
                     else str_eqb name pat || ends_with name (ch_dot :: pat)
         | [] => str_eqb name pat || ends_with name (ch_dot :: pat)
-        end
-    | KKeyword => pat_ok pat && contains name pat
+        end && pat_ok pat
+    | KKeyword => contains name pat && pat_ok pat
     | KRegex => rx pat name
     end.
 
